@@ -113,6 +113,30 @@ fn check_zero_len(c: &ZeroLen) -> CaseResult {
             }
         }
     }
+    // the zero spelled with more bytes than necessary (0x80 0x00, 0x80 0x80 0x00: what a fixed-width varint writer
+    // emits) is still a length of 0
+    for pad in [1usize, 2, 4] {
+        let vals = directory::values(&es, true);
+        let n = es.len();
+        let mut raw = Vec::new();
+        for (i, v) in vals.iter().enumerate() {
+            if i == 1 + 2 * n + at {
+                raw.extend(std::iter::repeat(0x80u8).take(pad));
+                raw.push(0);
+            } else {
+                crate::spec::varint::put(&mut raw, *v);
+            }
+        }
+        let enc = codec::compress(c.codec, &raw, c.params);
+        for asyncr in [false, true] {
+            let kk = if asyncr { "async" } else { "sync" };
+            let r = guarded("Directory::from_reader", || super::c05::lib_read(&enc, c.codec, asyncr)).map_err(|f| Fail::new(format!("C19/zero-length-parser-panics/{kk}"), f.msg))?;
+            if let Ok(d) = r {
+                let zero = (&d).into_iter().any(|e| e.length == 0);
+                ensure!(!zero, format!("C19/zero-length-parsed/{kk}/over-long-varint"), "a length of 0 spelled with {} bytes at entry {at} was parsed into an entry of length 0", pad + 1);
+            }
+        }
+    }
     Ok(Meta::new(at > 0).label(at > 0, "zero-length-not-first").label(es.len() > 100, "zero-length-big-directory").label(true, super::c01::codec_label(c.codec)))
 }
 
